@@ -4,13 +4,15 @@ from harness.gen.sessions import gen_case, SidCounter
 
 THEOREM_NOTE = ("Props/C06.lean: the line read from the console is carried unmodified through InputReceived -> InputReady -> the one-shot callback -> input(); end of input is the "
                 "empty line; the callback belongs to the asking screen and gets the arguments of that request; each delivery consumes one line, produces one InputReceived, one "
-                "successful InputReady, at most one input() call; lines are consumed in order and at most one reader is pending")
+                "successful InputReady, at most one input() call; lines are consumed in order and at most one reader is pending"
+                ' Props/C06b.lean: the lines received by input() are an in-order subsequence of the lines read (C06_order_within_level) under NoReadyCovered and NoReadyReentry, both shown necessary (K5, K5r).')
 HANG_IS_VIOLATION = "every line typed is delivered: the implementation hangs on a session the model finishes"
 ASSUMPTIONS = ASSUME_SESSION + ["liveness (the line is eventually delivered) is checked by the oracle on sessions, not proved: it fails by design when the application stops or a signal is routed to a blocked outer level"]
 RULE = ("tame sessions (stack operations from input(), 5..30 typed lines incl. empty, blanks, unicode and the global keys, early and late delivery points, screens shown at several "
         "modal depths, end of input) and app sessions; oracle: the keys received by input() are, in order, lines read from the console; in tame sessions every line read is "
         "delivered exactly once to the screen whose prompt preceded the read, with the arguments of that prompt, before the next read - unless the application stopped; "
-        "non-trivial = >= 2 lines delivered")
+        "non-trivial = >= 2 lines delivered"
+        ' Later rounds: hidden (password) prompts, modal notices shown by handlers while a prompt waits with lines typed while the handler is busy, application handlers on InputReadySignal (K5r); lines are owed first-in first-out; a hang on a session the model finishes is a failing input.')
 
 LINES = ["r", "c", "q", "x", "", "1", " ", "  a b ", "é", "ünï", "c", "c", "12", "q", "\t"]
 
